@@ -181,7 +181,26 @@ def h_fronts2d(H):
         S.explore(body)
 
 
-@harness(PROPERTY, "rises_2d", functions=["ibldsp.utils:rises", "ibldsp.utils:falls"], clause="rises / falls on 2-D inputs along either axis")
+def replay_rises2d(vals, oid):
+    """native: rises / falls of 2-D arrays whose steps have amplitudes 1, 2, 2.5, 3 along either axis, against the definition"""
+    rng = np.random.default_rng(1)
+    bad = []
+    for shape in ((3, 9), (7, 4), (1, 6), (5, 1)):
+        for _ in range(20):
+            x = rng.integers(-2, 3, size=shape).astype(float) * rng.choice([1.0, 2.5])
+            for step in (1, 2):
+                for axis in (0, -1):
+                    d = np.diff(x, axis=axis)
+                    for fn, st, cond in ((U.rises, step, d >= step), (U.falls, -step, d <= -step)):
+                        got = fn(x, axis=axis, step=st)
+                        w = np.array(np.where(cond))
+                        w[axis] += 1
+                        if np.asarray(got).shape != w.shape or not np.array_equal(got, w):
+                            bad.append((fn.__name__, x.tolist(), step, axis))
+    return {"failed": bool(bad), "examples": bad[:3]}
+
+
+@harness(PROPERTY, "rises_2d", functions=["ibldsp.utils:rises", "ibldsp.utils:falls"], replay=replay_rises2d, clause="rises / falls on 2-D inputs along either axis")
 def h_rises2d(H):
     for fn, name in ((U.rises, "rises"), (U.falls, "falls")):
         for axis in (-1, 0):
@@ -294,13 +313,17 @@ def h_read_sync_nidq(H):
 
 
 # ----------------------------------------------------------------------------- bounded
-@bounded(PROPERTY, "native_words_fronts", bound="all 65536 words; random 0/1 trains on random subsets of lines, n<=400; 2-D along both axes; analog around threshold; nidq read_sync on a small real file",
+@bounded(PROPERTY, "native_words_fronts", bound="all 65536 words; steps of amplitude 1..7.5 on integer and 2.5-scaled lines (1-D n in {2,3,17}, 2-D 4 shapes, both axes, steps 1 and 2); random 0/1 trains on random subsets of lines, n<=400; 2-D along both axes; analog around threshold; nidq read_sync on a small real file",
          clause="exhaustive decoding; event train recovery end-to-end")
 def b_native(B):
     words = np.arange(-32768, 32768).astype(np.int16)
     out = spikeglx.split_sync(words)
     want = ((words.astype(np.int64)[:, None] % 65536) >> np.arange(16)[None, :]) & 1
     B.case("all_words", bool(np.array_equal(out, want)) and out.dtype == np.int8, detail="split_sync over all 65536 words")
+    # lines whose steps are not of amplitude 1 (volts, scaled integers): 1-D and 2-D, against the definition
+    r1, r2 = replay_fronts({}, ""), replay_rises2d({}, "")
+    B.case("fronts_rises_falls_any_amplitude_1d", not r1["failed"], detail=r1)
+    B.case("rises_falls_any_amplitude_2d", not r2["failed"], detail=r2)
     rng = np.random.default_rng(B.seed)
     for t in range(60 if B.tier == "quick" else 600):
         n = int(rng.integers(2, 400))
